@@ -446,6 +446,63 @@ func (s Emitter) formatLiteral(output io.Writer, literal *cypher.Literal) error 
 	return nil
 }
 
+// Operator precedence of the boolean connectives, weakest first (openCypher: OR < XOR < AND < NOT).
+const (
+	disjunctionPrecedence = iota + 1
+	exclusiveDisjunctionPrecedence
+	conjunctionPrecedence
+	negationPrecedence
+	atomPrecedence
+)
+
+func booleanPrecedence(expression cypher.Expression) int {
+	switch typedExpression := expression.(type) {
+	case *cypher.Disjunction:
+		if len(typedExpression.Expressions) == 1 {
+			return booleanPrecedence(typedExpression.Expressions[0])
+		}
+		return disjunctionPrecedence
+
+	case *cypher.ExclusiveDisjunction:
+		if len(typedExpression.Expressions) == 1 {
+			return booleanPrecedence(typedExpression.Expressions[0])
+		}
+		return exclusiveDisjunctionPrecedence
+
+	case *cypher.Conjunction:
+		if len(typedExpression.Expressions) == 1 {
+			return booleanPrecedence(typedExpression.Expressions[0])
+		}
+		return conjunctionPrecedence
+
+	case *cypher.Negation:
+		return negationPrecedence
+
+	default:
+		return atomPrecedence
+	}
+}
+
+// writeBooleanOperand writes an operand of a boolean connective. An operand whose own connective binds weaker than
+// its parent's is parenthesized, otherwise the text would be regrouped when it is parsed again (a xor b and c parses
+// as a xor (b and c)).
+func (s Emitter) writeBooleanOperand(output io.Writer, operand cypher.Expression, parentPrecedence int) error {
+	if booleanPrecedence(operand) >= parentPrecedence {
+		return s.WriteExpression(output, operand)
+	}
+
+	if _, err := io.WriteString(output, "("); err != nil {
+		return err
+	}
+
+	if err := s.WriteExpression(output, operand); err != nil {
+		return err
+	}
+
+	_, err := io.WriteString(output, ")")
+	return err
+}
+
 func (s Emitter) WriteExpression(output io.Writer, expression cypher.Expression) error {
 	switch typedExpression := expression.(type) {
 	case *cypher.ProjectionItem:
@@ -475,7 +532,7 @@ func (s Emitter) WriteExpression(output io.Writer, expression cypher.Expression)
 			}
 
 		default:
-			if err := s.WriteExpression(output, innerExpression); err != nil {
+			if err := s.writeBooleanOperand(output, innerExpression, negationPrecedence); err != nil {
 				return err
 			}
 		}
@@ -555,7 +612,7 @@ func (s Emitter) WriteExpression(output io.Writer, expression cypher.Expression)
 				}
 			}
 
-			if err := s.WriteExpression(output, joinedExpression); err != nil {
+			if err := s.writeBooleanOperand(output, joinedExpression, exclusiveDisjunctionPrecedence); err != nil {
 				return err
 			}
 		}
@@ -568,7 +625,7 @@ func (s Emitter) WriteExpression(output io.Writer, expression cypher.Expression)
 				}
 			}
 
-			if err := s.WriteExpression(output, joinedExpression); err != nil {
+			if err := s.writeBooleanOperand(output, joinedExpression, conjunctionPrecedence); err != nil {
 				return err
 			}
 		}
